@@ -94,6 +94,13 @@ CHECKS['C13'] = ('fault enumeration over discovered system-call sites of the rea
                  'writes, access()=False, byte-compile errors); after every execution the destination must hold the old or the new '
                  'complete content, no stray entry, only PySmiWriterError may escape, normal return implies the new content; '
                  'dry-run leaves the tree unchanged; all interleavings of two writers of the same module are explored.', '5.C13')
+CHECKS['C14'] = ('complete enumeration of request names x matching-option vectors x candidate file names x placements (directory depth, '
+                 'ZIP nesting) on the real readers against a reference variant-set model; URL shapes against a dispatch table',
+                 'Every candidate file name (case forms x suffix added/removed x 7 extensions, near misses) is placed alone in a '
+                 'scratch directory / ZIP archive at several depths and requested under all 16 option vectors: found iff it is a '
+                 'documented variant and reachable, content = bytes.decode(utf-8, ignore), mtime = stat/ZIP time, never an unrelated '
+                 'file; byte contents, size limit, pairs, .index files, archive shapes (duplicates, corrupt members) and URL '
+                 'dispatch (scheme x path x credentials) are enumerated completely.', '5.C14')
 NOT_YET = {}
 
 ALL = ['C%02d' % i for i in range(1, 21)]
